@@ -184,6 +184,12 @@ S["weak_loop_future"] = dict(until=3, max_loop=5, groups=G1,
                                    H("O", group="g", next_default=1)],
                              conns=[C("A", "B", "eo", "ti"), C("B", "A", "eo", "ti", weak=True),
                                     C("A", "O", "eo", "ti")])
+# every time step: one answer over the weak connection, answered by an output for the *next*
+# time step (made in sub-step 1); many more time steps than max_loop_iterations
+S["weak_loop_future_long"] = dict(until=6, max_loop=3, groups=G1, max_budget=0,
+                                  sims=[E("A", group="g", init_event=0, emit=[0], emit_default=1),
+                                        E("B", group="g", emit_default=0)],
+                                  conns=[C("A", "B", "eo", "ti"), C("B", "A", "eo", "ti", weak=True)])
 # a member of the loop's group is fed directly and via a simulator outside the group (F21)
 S["group_reentry"] = dict(until=2, max_loop=5, groups=G1,
                           sims=[E("A", group="g", init_event=0, emit=[0, 0], next=[None, None, 1]),
@@ -239,6 +245,59 @@ S["loop_inner_tier_unsettled"] = dict(
     sims=[E("A", group="h", init_event=0, emit_default=0), E("B", group="h", emit_default=0),
           T("O", group="g")],
     conns=[C("A", "B", "eo", "ti"), C("B", "A", "eo", "ti", weak=True)])
+# one pair with a plain non-triggering and a time-shifted triggering connection, behind a
+# third simulator that triggers the source late
+S["plain_nontrigger_plus_shift_trigger"] = dict(
+    until=6, sims=[E("U", init_event=3, emit=[0]), H("S", next=[None, None], emit=[None, 0]),
+                   H("L", next=[None, None]), T("X", 2)],
+    conns=[C("U", "S", "eo", "ti"), C("S", "L", "po", "mi"), C("S", "L", "eo", "ti", shift=1)])
+S["plain_nontrigger_plus_weak_trigger"] = dict(
+    until=6, groups=G1,
+    sims=[E("U", init_event=3, emit=[0]), H("S", group="g", next=[None, None], emit=[None, 0]),
+          H("L", group="g", next=[None, None])],
+    conns=[C("U", "S", "eo", "ti"), C("S", "L", "po", "mi"), C("S", "L", "eo", "ti", weak=True)])
+# ---- two entities per simulator: per-entity routing, delays and triggers -------------------
+def CE(s, se, d, de, sa, da, **k):
+    return dict(C(s, d, sa, da, **k), seid=se, deid=de)
+
+
+# the two entity pairs of one simulator pair have different delays
+S["ents_split_delays"] = dict(
+    until=3, sims=[T("A", ents=2), T("B", ents=2)],
+    conns=[CE("A", "e", "B", "e", "po", "mi"), CE("A", "f", "B", "f", "po", "mi", shift=1, init=True)])
+S["ents_split_delays_rev"] = dict(
+    until=3, sims=[T("A", ents=2), T("B", ents=2)],
+    conns=[CE("A", "f", "B", "f", "po", "mi", shift=1, init=True), CE("A", "e", "B", "e", "po", "mi")])
+# crossed pairs; one triggering, one not; fan-in of both source entities into one attribute
+S["ents_cross"] = dict(
+    until=3, sims=[H("A", ents=2, next_default=2, emit=[0, None, 0]), H("B", ents=2, next=[None])],
+    conns=[CE("A", "e", "B", "f", "eo", "ti"), CE("A", "f", "B", "e", "po", "mi"),
+           CE("A", "f", "B", "f", "eo", "ti2", shift=1)])
+S["ents_fan_in"] = dict(
+    until=3, sims=[T("A", ents=2), T("B", 2), T("Z", ents=2)],
+    conns=[CE("A", "e", "Z", "e", "po", "mi"), CE("A", "f", "Z", "e", "po", "mi"),
+           CE("B", "e", "Z", "f", "po", "mi"), CE("A", "f", "Z", "f", "po", "mi", shift=2, init=True)])
+# a same-time loop that runs over different entities of the two simulators
+S["ents_weak_loop"] = dict(
+    until=2, max_loop=4, groups=G1,
+    sims=[E("A", ents=2, group="g", init_event=0, emit=[0, 0], next=[None, None, 1]),
+          E("B", ents=2, group="g", emit_default=0)],
+    conns=[CE("A", "e", "B", "f", "eo", "ti"), CE("B", "f", "A", "f", "eo", "ti", weak=True),
+           CE("B", "e", "A", "e", "eo", "ti2", weak=True)])
+# events of two entities with different delays to one destination entity, via a chain
+S["ents_event_delays"] = dict(
+    until=5, sims=[E("U", ents=2, init_event=0, emit=[0, 1], next=[2]), E("V", ents=2, emit_default=0),
+                   E("W")],
+    conns=[CE("U", "e", "V", "e", "eo", "ti"), CE("U", "f", "V", "f", "eo", "ti", shift=2),
+           CE("V", "f", "W", "e", "eo", "ti"), CE("V", "e", "W", "e", "eo", "ti2", shift=1)])
+
+# loops on two levels of nested groups: neither makes max_loop iterations, together they do
+S["loop_two_levels"] = dict(
+    until=1, max_loop=3, groups={"g": None, "h": "g"}, max_budget=0,
+    sims=[E("Co", group="g", init_event=0, emit=[0, 0]),
+          E("So", group="h", emit=[0, 0, None, 0, 0]), E("Mo", group="h", emit_default=0)],
+    conns=[C("Co", "So", "eo", "ti"), C("So", "Mo", "eo", "ti"),
+           C("Mo", "So", "eo", "ti", weak=True), C("So", "Co", "eo", "ti2", weak=True)])
 # an earlier sub-step is scheduled while the simulator already waits for a later one
 S["two_weak_feeders"] = dict(
     until=1, max_loop=5, groups=G1,
